@@ -549,6 +549,37 @@ def c17() -> List[M]:
     ]
 
 
+def c03() -> List[M]:
+    return [
+        M("C03", "rtu-register-low-byte-wrong", MB, "    data: bytearray = bytearray(6)\n    data[0] = comm_addr\n    data[1] = cmd\n    data[2] = (offset >> 8) & 0xFF\n    data[3] = offset & 0xFF", "    data: bytearray = bytearray(6)\n    data[0] = comm_addr\n    data[1] = cmd\n    data[2] = (offset >> 8) & 0xFF\n    data[3] = (offset >> 8) & 0xFF", "C03.R1"),
+        M("C03", "tcp-value-bytes-swapped", MB, "    data[10] = (value >> 8) & 0xFF\n    data[11] = value & 0xFF", "    data[10] = value & 0xFF\n    data[11] = (value >> 8) & 0xFF", "C03.R1"),
+        M("C03", "tcp-length-field-wrong", MB, "    data[4] = 0\n    data[5] = 6\n", "    data[4] = 0\n    data[5] = 5\n", "C03.R1"),
+        M("C03", "tcp-protocol-id-nonzero", MB, "    data: bytearray = bytearray(12)\n    data[0] = 0\n    data[1] = 1  # Not transaction ID support yet\n    data[2] = 0", "    data: bytearray = bytearray(12)\n    data[0] = 0\n    data[1] = 1  # Not transaction ID support yet\n    data[2] = 1", "C03.R1"),
+        M("C03", "rtu-crc-high-byte-first", MB, "    checksum = _modbus_checksum(data)\n    data.append(checksum & 0xFF)\n    data.append((checksum >> 8) & 0xFF)\n    return bytes(data)\n\n\ndef create_modbus_tcp_request", "    checksum = _modbus_checksum(data)\n    data.append((checksum >> 8) & 0xFF)\n    data.append(checksum & 0xFF)\n    return bytes(data)\n\n\ndef create_modbus_tcp_request", "C03.R1"),
+        M("C03", "rtu-multi-crc-before-payload", MB, "    data.extend(values)\n    checksum = _modbus_checksum(data)\n    data.append(checksum & 0xFF)", "    checksum = _modbus_checksum(data)\n    data.extend(values)\n    data.append(checksum & 0xFF)", "C03.R1"),
+        M("C03", "rtu-multi-count-is-bytes", MB, "    data[5] = len(values) // 2\n    data[6] = len(values)\n    data.extend(values)\n    checksum", "    data[5] = len(values)\n    data[6] = len(values)\n    data.extend(values)\n    checksum", "C03.R1"),
+        M("C03", "tcp-multi-length-off-by-one", MB, "    data[5] = 7 + len(values)", "    data[5] = 6 + len(values)", "C03.R1"),
+        M("C03", "benign-mask-written-decimal", MB, "    data: bytearray = bytearray(6)\n    data[0] = comm_addr\n    data[1] = cmd\n    data[2] = (offset >> 8) & 0xFF\n    data[3] = offset & 0xFF", "    data: bytearray = bytearray(6)\n    data[0] = comm_addr\n    data[1] = cmd\n    data[2] = 255 & (offset >> 8)\n    data[3] = 0xFF & offset", "clean"),
+        M("C03", "benign-tcp-multi-length-commuted", MB, "    data[5] = 7 + len(values)", "    data[5] = len(values) + 7", "clean"),
+        M("C03", "revert-fix-aa55-write-negative", P, "{value & 0xFFFF:04x}", "{value:04x}", "C03.R2"),
+        M("C03", "rtu-value-high-unmasked", MB, "    data[4] = (value >> 8) & 0xFF\n    data[5] = value & 0xFF\n    checksum", "    data[4] = value >> 8\n    data[5] = value & 0xFF\n    checksum", "C03.R2|C03.R1"),
+        M("C03", "es-relay-param-too-wide", ES, "        elif mode == 3:\n            param = 48\n        await self._read_from_socket(Aa55ProtocolCommand(f\"03270200", "        elif mode == 3:\n            param = 480\n        await self._read_from_socket(Aa55ProtocolCommand(f\"03270200", "C03.R2"),
+        M("C03", "es-dod-sent-unguarded", ES, "        if 0 <= dod <= 100:\n            await self._read_from_socket(Aa55WriteCommand(0x560, 100 - dod))", "        await self._read_from_socket(Aa55ProtocolCommand(f\"023905056001{100 - dod:04x}\", \"02B9\"))", "C03.R2"),
+        M("C03", "aa55-write-length-byte", P, 'f"023905{register:04x}01', 'f"023906{register:04x}01', "C03.R3"),
+        M("C03", "aa55-read-length-byte", P, 'f"011A03{offset:04x}{count:02x}"', 'f"011A02{offset:04x}{count:02x}"', "C03.R3"),
+        M("C03", "aa55-multi-length-byte", P, 'f"02390B{offset:04x}', 'f"02390C{offset:04x}', "C03.R3"),
+        M("C03", "es-charge-limit-length-byte", ES, 'f"032c05{start_h:02x}', 'f"032c04{start_h:02x}', "C03.R3"),
+        M("C03", "aa55-checksum-over-other-string", P, '                + self._checksum(bytes.fromhex("AA55C07F" + payload)).hex()', '                + self._checksum(bytes.fromhex("AA55C07F" + payload[2:])).hex()', "C03.R3"),
+        M("C03", "aa55-request-checksum-little-endian", P, '        return checksum.to_bytes(2, byteorder="big", signed=False)', '        return checksum.to_bytes(2, byteorder="little", signed=False)', "C03.R3"),
+        M("C03", "tx-wraps-to-zero", P, "    if _modbus_tcp_tx == 0xFFFF:\n        _modbus_tcp_tx = 1", "    if _modbus_tcp_tx == 0xFFFF:\n        _modbus_tcp_tx = 0", "C03.R4"),
+        M("C03", "tx-not-incremented", P, "    _modbus_tcp_tx += 1\n", "    _modbus_tcp_tx += 0\n", "C03.R4"),
+        M("C03", "tx-stamp-wrong-slice", P, "        self.request = _next_tx() + self.request[2:]", "        self.request = _next_tx() + self.request[1:]", "C03.R4"),
+        M("C03", "tcp-retransmits-same-tx", P, "        payload = command.request_bytes()\n        if self._retry > 0:\n            logger.debug(\"Sending: %s - retry #%s/%s\", self.command, self._retry, self.retries)\n        else:\n            logger.debug(\"Sending: %s\", self.command)\n        self._transport.write(payload)",
+          "        payload = command.request\n        if self._retry > 0:\n            logger.debug(\"Sending: %s - retry #%s/%s\", self.command, self._retry, self.retries)\n        else:\n            logger.debug(\"Sending: %s\", self.command)\n        self._transport.write(payload)", "C03.R4"),
+        M("C03", "benign-tx-wrap-at-65536", P, "    if _modbus_tcp_tx == 0xFFFF:\n        _modbus_tcp_tx = 1", "    if _modbus_tcp_tx == 0x10000:\n        _modbus_tcp_tx = 1", "clean"),
+    ]
+
+
 def corpus() -> List[M]:
     out: List[M] = []
     for name, fn in sorted(globals().items()):
